@@ -78,6 +78,11 @@ func init() {
 			// twin orders created in the same block (same examination height), one of them cancelled early
 			add(map[string]string{"replica": "1", "attempts": "3", "extra": "1", "td": "small", "twin": "1"})
 			add(map[string]string{"replica": "2", "attempts": "2", "extra": "0", "td": "small", "twin": "1"})
+			// one of the providers holds the super role
+			add(map[string]string{"replica": "1", "attempts": "3", "extra": "1", "td": "small", "super": "1"})
+			add(map[string]string{"replica": "2", "attempts": "2", "extra": "1", "td": "small", "super": "1"})
+			add(map[string]string{"replica": "1", "attempts": "3", "extra": "0", "td": "small", "super": "1"})
+			add(map[string]string{"replica": "2", "attempts": "2", "extra": "0", "td": "small", "super": "1"})
 			jobs = append(jobs, recipes("C12", "tiny-reduce", "exam-during-migration")(tier, seed)...)
 			if tier == "thorough" {
 				for _, td := range []string{"half", "over"} {
@@ -250,6 +255,7 @@ func init() {
 				add("selection", 24, map[string]string{"direct": "3000", "orders": "16"})
 				add("selection", 10, map[string]string{"direct": "3000", "orders": "10", "bigpop": "1"})
 				add("selection", 6, map[string]string{"direct": "500", "orders": "8", "hugepop": "1"})
+				add("selection", 4, map[string]string{"direct": "100", "orders": "4", "tightsuper": "1"})
 				add("config", 120, map[string]string{"ops": "40"})
 				add("life", 20, map[string]string{"ops": "110", "bigtimeout": "1"})
 				add("staking", 6, map[string]string{"ops": "600", "offline": "40"})
@@ -268,6 +274,7 @@ func init() {
 				add("selection", 3, map[string]string{"direct": "500", "orders": "8"})
 				add("selection", 1, map[string]string{"direct": "500", "orders": "6", "bigpop": "1"})
 				add("selection", 1, map[string]string{"direct": "100", "orders": "4", "hugepop": "1"})
+				add("selection", 1, map[string]string{"direct": "50", "orders": "3", "tightsuper": "1"})
 				add("config", 12, map[string]string{"ops": "14"})
 				add("life", 2, map[string]string{"ops": "40", "bigtimeout": "1"})
 				add("staking", 1, map[string]string{"ops": "150", "offline": "40"})
@@ -300,6 +307,7 @@ func init() {
 				jobs = append(jobs, check.Job{Prop: "C15", Scenario: "selection", Seed: seed*86028121 + int64(i), Args: a})
 			}
 			jobs = append(jobs, check.Job{Prop: "C15", Scenario: "selection", Seed: seed*86028121 + 1000, Args: map[string]string{"direct": "100", "orders": "4", "hugepop": "1"}})
+			jobs = append(jobs, check.Job{Prop: "C15", Scenario: "selection", Seed: seed*86028121 + 1001, Args: map[string]string{"direct": "50", "orders": "3", "tightsuper": "1"}})
 			return jobs
 		},
 		MinCases:    map[string]int{"quick": 20, "thorough": 40},
@@ -368,7 +376,7 @@ func init() {
 
 	check.RegisterSpec(&check.Spec{Prop: "C13", Level: "exploration",
 		Rule: "seeded random walks over the order lifecycle (store/ready/complete/update/force-push/renew/terminate/cancel/migrate/claim/capacity changes, silent providers, block advance across every scheduled height); after every block all relations are evaluated on the committed state. A case is the shape (bucketed counts of orders, shards, models, pending timeouts, pending expiries) of a state on which the relations were evaluated; distinct_nontrivial counts distinct shapes with at least one order or model.",
-		Jobs: withExtra(withExtra(lifeJobs("C13", 5, 64, nil), recipes("C13", "migrated", "afterroll", "longer", "tiny-reduce", "double-migrate", "fp-renewed", "terminate+twin", "migrated+twin", "term-migrating-renewed", "fp-migrating-renewed", "cancel-old-expired", "exam-during-migration")), func(tier string, seed int64) []check.Job {
+		Jobs: withExtra(withExtra(lifeJobs("C13", 5, 64, nil), recipes("C13", "migrated", "afterroll", "longer", "tiny-reduce", "double-migrate", "fp-renewed", "terminate+twin", "migrated+twin", "term-migrating-renewed", "fp-migrating-renewed", "cancel-old-expired", "exam-during-migration", "renew-after-replacement", "longer+twinfirst")), func(tier string, seed int64) []check.Job {
 			return []check.Job{{Prop: "C13", Scenario: "recreate", Seed: seed*15487469 + 1, Args: map[string]string{"mode": "two-unnamed", "alias": "none"}}, {Prop: "C13", Scenario: "recreate", Seed: seed*15487469 + 2, Args: map[string]string{"mode": "cancel", "alias": "none"}}}
 		}),
 		MinCases:    map[string]int{"quick": 10, "thorough": 30},
@@ -379,7 +387,7 @@ func init() {
 	lifeRule := "seeded random walks over the order lifecycle — store (sizes around the 1e-6 price rounding, replica 1-3, durations 3600-6000, sponsored payment, owner-submitted + Ready), staggered completion with silent providers, update, force-push, renew (several in a row, shorter and longer), terminate at every phase, cancel, migrate, claim, capacity add/remove, a provider without liquid balance (debt paths) — with block advance to just before / at / after every scheduled height and a final drain across all schedules; five weight profiles. "
 	check.RegisterSpec(&check.Spec{Prop: "C04", Level: "exploration",
 		Rule:        lifeRule + "The monitor decides every store/renew charge against the quote and the rightful payer, classifies every transfer touching the order/market escrows, keeps a reference income per provider (unit price x bytes x blocks over observed holdings) and a conservation balance with a dust bound of one coin per charge/refund settlement. A case is a charge shape (size, replicas, sponsored), an ending path (expiry, rotation to renewal, terminate, cancel, timeout-cancel, replica reduction, force-push) or a claim class; distinct_nontrivial counts distinct cases.",
-		Jobs:        withExtra(lifeJobs("C04", 5, 64, nil), recipes("C04", "shorter", "queued", "migrated", "debt-release", "term-reassign", "fp-reassign", "fp-renewed", "double-migrate", "terminate+twin", "renew-between-expiries")),
+		Jobs:        withExtra(lifeJobs("C04", 5, 64, nil), recipes("C04", "shorter", "queued", "migrated", "debt-release", "term-reassign", "fp-reassign", "fp-renewed", "double-migrate", "terminate+twin", "renew-between-expiries", "dust-claims")),
 		MinCases:    map[string]int{"quick": 12, "thorough": 25},
 		Assumptions: []string{"bank transfer events are complete; prices are exact in 18 decimals"}})
 	check.RegisterSpec(&check.Spec{Prop: "C05", Level: "exploration",
@@ -400,6 +408,9 @@ func init() {
 				for _, m := range []string{"update-cancel", "update-timeout"} {
 					jobs = append(jobs, check.Job{Prop: "C05", Scenario: "recreate", Seed: seed*373587883 + int64(len(jobs)), Args: map[string]string{"mode": m}})
 				}
+				for _, m := range []string{"update-cancel", "update-timeout"} {
+					jobs = append(jobs, check.Job{Prop: "C05", Scenario: "recreate", Seed: seed*373587883 + int64(len(jobs)), Args: map[string]string{"mode": m, "renewed": "1"}})
+				}
 			}
 			return jobs
 		}),
@@ -408,13 +419,13 @@ func init() {
 	check.RegisterSpec(&check.Spec{Prop: "C06", Level: "exploration",
 		Rule: lifeRule + "Plus a recipe with a sponsor-paid order whose owner DID has no payment address (refund into the did module). On every block-boundary snapshot the four escrow inequalities are evaluated against liabilities recomputed from the exported records; entitled payouts that fail are flagged. A case is the bucketed shape of a state (orders, live shards, queued renewals, debts, rewards, DID balances); distinct_nontrivial counts distinct shapes.",
 		Jobs: withExtra(lifeJobs("C06", 5, 48, nil), func(tier string, seed int64) []check.Job {
-			return append(recipes("C06", "debt-release", "queued", "debt-expire", "term-reassign", "debt-multi", "renew-between-expiries", "unaligned")(tier, seed), check.Job{Prop: "C06", Scenario: "sponsored-nopay", Seed: seed*472882027 + 1})
+			return append(recipes("C06", "debt-release", "queued", "debt-expire", "term-reassign", "debt-multi", "renew-between-expiries", "unaligned", "dust-claims", "debt-small-release")(tier, seed), check.Job{Prop: "C06", Scenario: "sponsored-nopay", Seed: seed*472882027 + 1})
 		}),
 		MinCases:    map[string]int{"quick": 8, "thorough": 16},
 		Assumptions: []string{"liabilities are recomputed from exported module state"}})
 	check.RegisterSpec(&check.Spec{Prop: "C07", Level: "exploration",
 		Rule: lifeRule + "For every transaction, begin block and end block the monitor compares, per provider, coins moved to/from the node escrow with the change of recorded collateral net of debt, checks recipients, withdrawal against free capacity of the pre-state, and row bounds; at the end of drained walks and in the lone-provider scenario (capacity added in sizes around the 1e6-byte pricing unit) a provider that stores nothing asks for its whole capacity back and the whole capacity pledge has to return. A case is (operation, debts present, number of node-escrow flows) or (withdrawal: leaves zero free / capacity in use); distinct_nontrivial counts distinct cases.",
-		Jobs: withExtra(withExtra(lifeJobs("C07", 5, 48, nil), recipes("C07", "shorter", "longer", "debt-release", "debt-expire", "migrated", "fp-renewed", "longer+twin", "debt-multi")),
+		Jobs: withExtra(withExtra(lifeJobs("C07", 5, 48, nil), recipes("C07", "shorter", "longer", "debt-release", "debt-expire", "migrated", "fp-renewed", "longer+twin", "debt-multi", "debt-small-release")),
 			simpleJobs("C07", "lone-pledge", 1, 6, map[string]string{"rounds": "8"}, map[string]string{"rounds": "8"})),
 		MinCases:    map[string]int{"quick": 10, "thorough": 20},
 		Assumptions: []string{"reward claims are decided by C08"}})
@@ -449,7 +460,7 @@ func init() {
 	check.RegisterSpec(&check.Spec{Prop: "C11", Level: "exploration",
 		Rule: lifeRule + "Plus recipes: cancel / timeout / terminate (completed and in flight) followed by re-creation of the same data id and advance across the old and new scheduled heights. The monitor builds the reference timetable from accepted requests and checks existence, provider, capacity accounting, model presence and release at every block boundary. A case is a release class (renewals, migrated, term bucket), an early ending (terminate, force-push), a migration hand-over or a re-creation mode; distinct_nontrivial counts distinct cases.",
 		Jobs: withExtra(lifeJobs("C11", 5, 64, nil), func(tier string, seed int64) []check.Job {
-			jobs := recipes("C11", "queued", "afterroll", "migrated", "shorter", "double-migrate", "fp-renewed", "terminate+twin", "shorter+twin", "cancel-old-expired", "timeout-old-expired", "exam-during-migration")(tier, seed)
+			jobs := recipes("C11", "queued", "afterroll", "migrated", "shorter", "double-migrate", "fp-renewed", "terminate+twin", "shorter+twin", "cancel-old-expired", "timeout-old-expired", "exam-during-migration", "shorter+twinfirst", "longer+twinfirst")(tier, seed)
 			n := 1
 			if tier == "thorough" {
 				n = 8
@@ -489,7 +500,7 @@ func init() {
 		Assumptions: []string{"history is read from the metadata query after every transaction and block"}})
 	check.RegisterSpec(&check.Spec{Prop: "C14", Level: "exploration",
 		Rule:        "same lifecycle walks; after every block the six aggregate equalities are evaluated per provider and network-wide. A case is the bucketed (providers, live shards, any renewed shard, open debts) shape of a state; distinct_nontrivial counts distinct shapes.",
-		Jobs:        withExtra(lifeJobs("C14", 5, 64, nil), recipes("C14", "shorter", "debt-release", "debt-expire", "unaligned", "fp-renewed", "double-migrate", "migrated+twin", "debt-multi", "term-migrating-renewed")),
+		Jobs:        withExtra(lifeJobs("C14", 5, 64, nil), recipes("C14", "shorter", "debt-release", "debt-expire", "unaligned", "fp-renewed", "double-migrate", "migrated+twin", "debt-multi", "term-migrating-renewed", "terminate-at-expiry", "fp-at-expiry", "debt-small-release")),
 		MinCases:    map[string]int{"quick": 6, "thorough": 12},
 		Assumptions: []string{"state is read through the keepers' own getters over the committed multistore"}})
 }
